@@ -383,7 +383,7 @@ def gen_cases(rng, tier):
     for pm in ("thread", "pipeline"):
         cs += malformed_cases(pm)
     # many medium cases: 2-8 threads x 5-60 calls
-    for _ in range(160 if thorough else 40):
+    for _ in range(160 if thorough else 30):
         pm = rng.choice(["thread", "thread", "pipeline", "pipeline", "coro"])
         cs.append(Case(big_case(rng, pm, lo=5, hi=60), "medium-" + pm))
     # the sizes of the plan: 2-8 threads x 50-500 calls
